@@ -2,6 +2,7 @@ import AasVerif.Lemmas.RevmTop
 import AasVerif.Lemmas.RevmCtor
 import AasVerif.Lemmas.RevmRunDiverge
 import AasVerif.Gen.Revm
+import AasVerif.Props.C16
 /-!
 # C18 — Regex VM programs match like the pattern
 
@@ -92,10 +93,25 @@ theorem match_correct (r : Regex) (p : List Leaf) (s : Text) (hr : Accepted r)
 
 /-- The constructors of `InstructionSet`/`InstructionNotSet`/`Range` in the generated `revm.cpp` (which throw on
 empty, unsorted or overlapping ranges while the program constant is initialised) do not throw for an accepted
-pattern without a character set without ranges (`neU`; only the parser defect C18-F1 produces such a set). -/
+pattern without a character set without ranges (`neU`). -/
 theorem program_constructible (r : Regex) (p : List Leaf) (hr : Accepted r) (hne : neU r = true)
     (hp : translate r = .ok p) : cppConstructible (instrs p) = true :=
   translate_constructible r p hr hne hp
+
+/-- … and no pattern has such a set any more: every tree the regex parser returns has non-empty character sets
+(`C16.parse_outputs_inRange`; former finding C18-F1: `^[]a]$` was parsed as the empty set `[]` followed by `a]`,
+and the generated C++ threw `std::invalid_argument` at static initialisation). So for every pattern text that
+is parsed and accepted, the program constant is constructible. -/
+theorem program_constructible_parsed (vs : List Part) (r : Regex) (p : List Leaf) (hparse : parse vs = .ok r)
+    (hr : Accepted r) (hp : translate r = .ok p) : cppConstructible (instrs p) = true := by
+  have hin := C16.parse_outputs_inRange vs r hparse
+  unfold inRangeTop at hin
+  simp only [Bool.and_eq_true] at hin
+  exact program_constructible r p hr (neU_of_inRange r hin.1) hp
+
+/-- the witness of the former finding: `^[]a]$` is parsed as `^`, the set `{], a}`, `$` -/
+example : parse [.str [94, 91, 93, 97, 93, 36]] = .ok (.mk [.mk [.mk (.sym .start) none,
+    .mk (.set false [⟨⟨93, false⟩, none⟩, ⟨⟨97, false⟩, none⟩]) none, .mk (.sym .stop) none]]) := rfl
 
 /-- The binary search `CharacterInRanges` is the documented membership test on sorted ranges. -/
 theorem character_in_ranges (rs : List Range) (c : Nat) (h : RangesSorted rs) :
